@@ -355,6 +355,142 @@ def property_cases(ck, L, G, depths, per, limit, focus=()):
     return cases
 
 
+CHECKED = ("required", "pattern", "enumeration", "minInclusive", "maxInclusive", "minExclusive", "maxExclusive")
+
+
+def pair_cases(ck, L, G):
+    """one deterministic case for EVERY (parent class, child member) pair of the bindings: a child of the class the
+    BUILDER instantiates for that member (element declaration type = bld_kids cls), violating one exactly tested facet,
+    inside a conforming parent - alone and, where the parent can sit in a document, inside a whole document.
+    Also returns the pairs whose MemberSpec data type differs from the builder's class."""
+    tr = {}
+    for t in triples(L, G):
+        if t[2] in CHECKED and t[4][0] in ("drop", "set"):
+            tr.setdefault(t[0], []).append(t)
+    cases, differ, uncovered = [], [], []
+    root = L.S["root"][1]
+
+    def descend(c, budget):
+        """(violable class, steps from it up to c) : c itself or its nearest descendant with an exactly tested facet"""
+        if c in tr:
+            return c, []
+        if budget == 0:
+            return None
+        for e2 in L.all_elems(c):
+            if e2["type"] in L.ct and "choice" not in e2["ctx"]:
+                r = descend(e2["type"], budget - 1)
+                if r is not None:
+                    return r[0], r[1] + [(c, e2)]
+        return None
+    for par in L.T.order:
+        ms = {m["name"]: m["type"] for m in L.T.C[par].get("mspecs", [])}
+        bk = {b["tag"]: b for b in L.T.C[par].get("bld_kids", [])}
+        for e in L.own_elems(par):
+            c = e["type"]
+            if c not in L.ct:
+                continue
+            b = bk.get(e["tag"])
+            if b is not None and b.get("cls") and b["cls"] != c:
+                ck.tally("pair:builder-class-differs-from-schema-type")
+            if ms.get(e["py"]) not in (None, c):
+                differ.append([par, e["py"], ms.get(e["py"]), c])
+            # the child itself if its class has an exactly tested facet, else the nearest descendant that has one
+            below = descend(c, 3)
+            if below is None:
+                uncovered.append("%s.%s:%s" % (par, e["py"], c))
+                continue
+            vc, inner = below
+            (_, member, facet, inh, op) = tr[vc][0]
+            chains = [inner + [(par, e)]]
+            up = G.steps_to_document(par)
+            if up and (ms.get(e["py"]) not in (None, c)):
+                chains.append(inner + [(par, e)] + up)
+            for steps in chains:
+                t = G.tree(vc, 0)
+                apply_op(L, G, t, member, op)
+                rt, path = G.embed(t, steps)
+                cases.append({"tree": rt, "tag": "neuroml" if rt["cls"] == root else "probe_" + rt["cls"], "doc": rt["cls"] == root,
+                              "type": vc, "member": member, "facet": facet, "inherited": inh, "depth": len(steps),
+                              "via_inherited": any(x["owner"] != p_ for p_, x in steps[:-1]), "path": path,
+                              "pair": "%s.%s" % (par, e["py"]), "types_differ": ms.get(e["py"]) not in (None, c)})
+    return cases, differ, uncovered
+
+
+def file_history_part(ck, L, G, order, n):
+    """C03_file: the verdict of is_valid_neuroml2 / validate_neuroml2 on a file is a function of the files - whatever was
+    checked before in the same process.  Violation in an INCLUDED file; same file twice; two parents sharing an include;
+    the include checked first; a valid control."""
+    rng = ck.rng
+    inc = {"l": [T_("IncludeType", href=s_("shared.nml"))]}
+    inc_good = {"l": [T_("IncludeType", href=s_("good_shared.nml"))]}
+
+    def scenario(bad_comp_member, bad_comp, good_comp):
+        pg = lambda i: {"l": [T_("PulseGenerator", id=s_("pg%d" % i), delay=s_("10ms"), duration=s_("50ms"), amplitude=s_("0.2nA"))]}  # noqa
+        return {"files": {
+            "shared.nml": {"cls": "NeuroMLDocument", "kw": [["id", s_("shared")], [bad_comp_member, {"l": [bad_comp]}]]},
+            "good_shared.nml": {"cls": "NeuroMLDocument", "kw": [["id", s_("goodshared")], [bad_comp_member, {"l": [good_comp]}]]},
+            "main1.nml": T_("NeuroMLDocument", id=s_("main1"), includes=inc, pulse_generators=pg(1)),
+            "main2.nml": T_("NeuroMLDocument", id=s_("main2"), includes=inc, pulse_generators=pg(2)),
+            "main_good.nml": T_("NeuroMLDocument", id=s_("maingood"), includes=inc_good, pulse_generators=pg(3))},
+            "sequences": [
+                [["is_valid", "main1.nml"], ["is_valid", "main1.nml"], ["is_valid", "main2.nml"], ["validate", "main1.nml"],
+                 ["validate", "main2.nml"], ["is_valid", "main_good.nml"], ["is_valid", "main_good.nml"]],
+                [["is_valid", "shared.nml"], ["is_valid", "main1.nml"], ["validate", "main2.nml"], ["is_valid", "shared.nml"]],
+                [["validate", "main2.nml"], ["is_valid", "main2.nml"], ["is_valid", "good_shared.nml"], ["validate", "main_good.nml"],
+                 ["is_valid", "shared.nml"]]]}
+    scs = [scenario("iaf_cells", T_("IafCell", id=s_("iaf0"), **dict(IAF, thresh=s_("-55 seconds"))), T_("IafCell", id=s_("iaf0"), **IAF))]
+    # further violations: a checked facet of a random top-level component type
+    tops = [e for e in L.own_elems(L.S["root"][1]) if e["kind"] == "objlist" and e["type"] in L.ct and e["tag"] != "include"]
+    tr = {}
+    for t in triples(L, G):
+        if t[2] in CHECKED and t[4][0] in ("drop", "set"):
+            tr.setdefault(t[0], []).append(t)
+    tops = [e for e in tops if e["type"] in tr]
+    for _ in range(n):
+        e = rng.choice(tops)
+        (_, member, facet, inh, op) = rng.choice(tr[e["type"]])
+        good = G.tree(e["type"], 0)
+        bad = json.loads(json.dumps(good))
+        apply_op(L, G, bad, member, op)
+        scs.append(scenario(e["py"], bad, good))
+    out = ck.impl("c03_impl.py", {"mode": "filehistory", "order": order, "scenarios": scs}, timeout=1500)["results"]
+    corr_c, corr_r = [], []
+    for sc, r in zip(scs, out):
+        ck.tally("file-history-scenario")
+        if "err" in r:
+            ck.oblige("file-history:scenario-runs", False, r["err"], kind="harness")
+            continue
+        fresh = r["fresh"]
+        # the fresh-process verdicts themselves: the files that include the violating file are invalid, the controls valid
+        for f, want in (("shared.nml", False), ("main1.nml", False), ("main2.nml", False), ("good_shared.nml", True), ("main_good.nml", True)):
+            got = fresh[f]["is_valid"]
+            if got is not want and not (want is False and isinstance(got, str)):
+                ck.witness("C03:file-with-violation-in-include-accepted" if want is False else "C02:valid-file-with-include-rejected",
+                           "is_valid_neuroml2(%s) in a fresh process says %s" % (f, got), input={"files": sc["files"], "file": f},
+                           expected=want, observed=got)
+        for i, seq in enumerate(r["sequences"]):
+            for j, (fn, f, v) in enumerate(seq):
+                ck.count(1, nontrivial_key=("file-history", json.dumps(sc["files"]["shared.nml"], sort_keys=True), i, j))
+                ck.tally("file-history-call:" + fn)
+                if v != fresh[f][fn]:
+                    ck.witness("C03:file-verdict-depends-on-history",
+                               "%s(%s) as call #%d of one process gives %s, in a fresh process %s (calls before it: %s)" % (
+                                   {"is_valid": "is_valid_neuroml2", "validate": "validate_neuroml2"}[fn], f, j + 1, v, fresh[f][fn],
+                                   ", ".join("%s(%s)" % (a, b) for a, b, _ in seq[:j]) or "none"),
+                               input={"files": sc["files"], "calls": [[a, b] for a, b, _ in seq[:j + 1]]},
+                               expected=fresh[f][fn], observed=v)
+        # the model (C03_file: is_valid f = false <-> validate (load f) true <> []) on what a fresh process loads
+        for f, ld in r["loaded"].items():
+            if isinstance(ld, dict):
+                corr_c.append({"file": f, "files": sc["files"]})
+                corr_r.append(ld)
+                if (ld["rec"]["raised"] is None) != (fresh[f]["is_valid"] is True):
+                    ck.witness("C03:file-wrapper-disagrees-with-validate-of-loaded-document",
+                               "is_valid_neuroml2(%s)=%s but validate(recursive=True) of the loaded document %s" % (
+                                   f, fresh[f]["is_valid"], ld["rec"]["raised"]), input={"files": sc["files"], "file": f})
+    correspondence(ck, corr_c, corr_r, label="Cases_C03_files")
+
+
 def judge(ck, L, cs, r):
     """the property predicate on one case of the real code"""
     if "obj_err" in r or "text_err" in r or "lx" not in r:
@@ -375,7 +511,9 @@ def judge(ck, L, cs, r):
     raised = r["rec"]["raised"]
     key = key_of(cs["facet"], cs["inherited"], cs["depth"], cs["via_inherited"]) or \
         "C03:%s.%s:%s" % (cs["type"], cs["member"], cs["facet"])
-    inp = {k: cs[k] for k in ("tree", "tag", "doc", "type", "member", "facet", "depth") if k in cs}
+    inp = {k: cs[k] for k in ("tree", "tag", "doc", "type", "member", "facet", "depth", "pair") if k in cs}
+    if cs.get("types_differ") and not (cs["facet"] in ("integer-range", "fixed") or "choice" in cs["facet"]):
+        key = "C03:children-under-%s-not-validated(MemberSpec-type-differs-from-their-class)" % cs["pair"]
     if raised is None:
         ck.witness(key, "validate(recursive=True) accepts a tree whose %s.%s violates '%s' at depth %d; libxml2: %s" % (
             cs["type"], cs["member"], cs["facet"], cs["depth"], r["lx"]["err"]), input=inp,
@@ -465,13 +603,27 @@ def run(ck):
         ck.extra["exhaustive_over_triples_x_depths"] = True
     else:
         pc = property_cases(ck, L, G, depths=(0, 1, 2, 3), per=1, limit=420, focus=focus)
+    pairs, differ, uncovered = pair_cases(ck, L, G)
+    ck.extra["memberspec_type_differs_from_builder_class"] = differ
+    ck.extra["pairs_without_a_checked_facet_in_the_child"] = uncovered
+    pc = pairs + pc
     pres = []
     for i in range(0, len(pc), 1500):
         pres += ck.impl("c03_impl.py", {"order": order, "cases": pc[i:i + 1500], "want": ["rec", "nonrec", "text", "file"]},
                         timeout=2400)["results"]
+    nw = len(ck.witnesses)
+    missed = []
     for cs, r in zip(pc, pres):
+        n0 = len(ck.witnesses)
         judge(ck, L, cs, r)
+        if "pair" in cs and len(ck.witnesses) > n0 and r.get("rec", {}).get("raised") is None:
+            missed.append(cs["pair"])
     ck.extra["property_cases_generated"] = len(pc)
+    ck.extra["parent_member_pairs_exercised"] = len(set(cs["pair"] for cs in pairs))
+    # the recursion reaches the children held by every (parent class, child member) pair (complete over the pairs)
+    ck.oblige("recursion:reaches-the-children-of-every-(parent, member)-pair", not missed,
+              "violating child not seen under: " + ", ".join(sorted(set(missed))[:12]), kind="instance")
+    file_history_part(ck, L, G, order, ck.n(1, 8))
     # the violated trees are correspondence cases as well (a seeded part of them in the quick tier)
     sub = list(zip(pc, pres))
     if ck.tier != "thorough":
@@ -485,6 +637,14 @@ def replay(ck, data):
     tab = bindings.translate(ck)
     T = bindings.Tables(tab)
     order = {c: T.field_order(c) for c in T.order}
+    if "files" in inp and "calls" in inp:
+        r = ck.impl("c03_impl.py", {"mode": "filehistory", "order": order,
+                                    "scenarios": [{"files": inp["files"], "sequences": [inp["calls"]]}]})["results"][0]
+        seq = r.get("sequences", [[]])[0]
+        fresh = r.get("fresh", {})
+        rows = [{"call": "%s(%s)" % (fn, f), "in this sequence": v, "in a fresh process": fresh.get(f, {}).get(fn)} for fn, f, v in seq]
+        print(json.dumps({"stored": {k: data.get(k) for k in ("key", "what")}, "now": rows, "error": r.get("err")}, indent=1)[:6000])
+        return 1 if any(x["in this sequence"] != x["in a fresh process"] for x in rows) else 0
     r = ck.impl("c03_impl.py", {"order": order, "cases": [inp], "want": ["rec", "nonrec", "text", "file"]})["results"][0]
     model = None
     try:     # the model on the same tree (tables regenerated from the tree under test)
